@@ -143,10 +143,13 @@ class RecordingBytesIO(io.BytesIO):
 class SimSink:
     """Sequential write-only byte sink."""
 
-    __slots__ = ("chunks", "objs", "ncalls", "touched", "returns_none", "fail_at", "fail_exc", "bad_args")
+    __slots__ = ("chunks", "objs", "ncalls", "touched", "returns_none", "fail_at", "fail_exc", "bad_args", "retain")
 
     def __init__(self, *, returns_none: bool = False, fail_at: int | None = None,
-                 fail_exc: BaseException | None = None) -> None:
+                 fail_exc: BaseException | None = None, retain: bool = True) -> None:
+        # retain=True keeps the written objects (to detect later mutation, as a zero-copy
+        # transport would); retain=False copies and forgets them, like BytesIO or a file
+        self.retain = retain
         self.chunks: list[bytes] = []
         self.objs: list = []
         self.ncalls = 0
@@ -166,7 +169,7 @@ class SimSink:
             raise TypeError(f"a bytes-like object is required, not {type(b).__name__!r}")
         snap = bytes(b)
         self.chunks.append(snap)
-        self.objs.append(b)
+        self.objs.append(b if self.retain else snap)
         return None if self.returns_none else len(snap)
 
     def __getattr__(self, name):
